@@ -318,6 +318,30 @@ def run_bundle_data(members, ev, dim, kernel_name, data):
         diffs = jit.compare_arrays(m.ref_arrays, m.cmp_arrays,
                                    bitwise=bitwise, rtol=1e-9)
         if diffs:
+            # Does the result depend on the initial contents of a declared
+            # local matrix?  C leaves those uninitialised (Python zeroes
+            # them), so such a case has no defined Python meaning.
+            from vlib import eqcatalog as C2
+            ref1 = [dict((p, a.get_carray(p).get_npy_array().copy())
+                         for p in a.properties) for a in m.ref_arrays]
+            jit.load_data(m.ref_arrays, member_specs(m, dim, data))
+            m.ref_nnps.update_domain()
+            m.ref_nnps.update()
+            try:
+                with C2.declare_fill([m.ref_eq], 7.25e3):
+                    m.ref.compute(data['t'], data['dt'])
+            except Exception:
+                pass
+            same = True
+            for a, b in zip(m.ref_arrays, ref1):
+                for p, old in b.items():
+                    if not jit.bits_equal(
+                            a.get_carray(p).get_npy_array(), old):
+                        same = False
+            if not same:
+                out.append((m, [], labels + ['uninitialised_local_read'],
+                            False))
+                continue
             d = diffs[0]
             fails.append(Failure(
                 'shipped', 'state_differs',
@@ -326,6 +350,11 @@ def run_bundle_data(members, ev, dim, kernel_name, data):
                                                      dim) + d), kl))
         ra = jit.public_numeric_attrs(m.ref_eq)
         ca = jit.compiled_equation_attrs(ev.func_eval, m.cmp_eq)
+        if hasattr(m.ref_eq, 'py_initialize'):
+            # py_initialize runs on the Python object (documented: it is not
+            # transpiled); attributes it sets never reach the compiled copy,
+            # and the statement is about particle properties and constants
+            ra = {}
         for k, v in ra.items():
             if k in ca and not (ca[k] == v or (v != v and ca[k] != ca[k])):
                 if bitwise or abs(ca[k] - v) > 1e-9 * max(abs(v), 1e-300):
@@ -351,6 +380,21 @@ def class_keys():
     return list(C.equation_classes().keys())
 
 
+def pack(keys, per):
+    """Bundles of `per` classes with pairwise different class names (the
+    generated wrappers are keyed by class name)."""
+    bundles = []
+    for k in keys:
+        short = k.split('.')[-1]
+        for b in bundles:
+            if len(b) < per and short not in [x.split('.')[-1] for x in b]:
+                b.append(k)
+                break
+        else:
+            bundles.append([k])
+    return bundles
+
+
 def plan(ctx):
     keys = class_keys()
     seedv = ctx['seed']
@@ -361,8 +405,8 @@ def plan(ctx):
         # seeds cover all classes
         start = (seedv * per * nb) % max(1, len(keys))
         rot = keys[start:] + keys[:start]
-        for b in range(nb):
-            grp = rot[b * per:(b + 1) * per]
+        bundles = pack(rot[:per * nb], per)
+        for b, grp in enumerate(bundles[:nb]):
             kern = KERNELS[(b + seedv) % len(KERNELS)]
             dims = KDIMS.get(kern, [1, 2, 3])
             dim = dims[(b + seedv) % len(dims)]
@@ -373,14 +417,27 @@ def plan(ctx):
         per, ndata = 12, 30
         b = 0
         for rep in range(3):
-            for i in range(0, len(keys), per):
+            for grp in pack(keys, per):
                 kern = KERNELS[(b + seedv + rep * 3) % len(KERNELS)]
                 dims = KDIMS.get(kern, [1, 2, 3])
                 dim = dims[(b + seedv + rep) % len(dims)]
                 shards.append(dict(name='shipped-%03d' % b, kind='shipped',
-                                   classes=keys[i:i + per], kernel=kern,
+                                   classes=grp, kernel=kern,
                                    dim=dim, ndata=ndata))
                 b += 1
+    # a fixed bundle of classes with strided properties and constants, so
+    # that those layouts are exercised whatever window the seed selects
+    core = [k for k in keys if k.split('.')[-1] in (
+        'HookesDeviatoricStressRate', 'RigidBodyMotion',
+        'ContinuityEquationDeltaSPH', 'GradientCorrectionPreStep',
+        'IsothermalEOS', 'VelocityGradient', 'CorrectionMatrix',
+        'MomentumEquationWithStress')]
+    seen = set()
+    core = [k for k in core
+            if not (k.split('.')[-1] in seen or seen.add(k.split('.')[-1]))]
+    shards.append(dict(name='shipped-core', kind='shipped', classes=core,
+                       kernel='QuinticSpline', dim=2,
+                       ndata=6 if ctx['tier'] == 'quick' else 30))
     try:
         from checks import c02_gen
         shards += c02_gen.plan(ctx)
